@@ -12,7 +12,8 @@ import kdf, dumpgen
 from props import c10
 
 OWN = ["kdumpNew_fail", "kdumpNew_ok", "kdumpNew_oom_safe", "kdumpClone_fail", "kdumpClone_ok", "kdumpClone_oom_safe",
-       "addRegion_nomem", "addRegion_fail_unchanged", "addRegion_ok"]
+       "addRegion_nomem", "addRegion_fail_unchanged", "addRegion_ok",
+       "allocAll_fail", "allocAll_ok", "pgRound_slot_fail", "pgRound_safe", "setPageSize_safe", "pagemapGet_safe"]
 CITED = ["Kdf.Props.C10.set_nomem", "Kdf.Props.C10.history", "Kdf.Props.C16.vadd_trunc", "Kdf.Props.C16.vadd_inbounds"]
 THEOREMS = ["Kdf.Props.C18." + t for t in OWN] + CITED
 VOFF = 0xffff880000000000
@@ -91,6 +92,36 @@ def make_dumps(R, idx):
     dumpgen.write_elf(p, segs2, machine=mach, elfclass=cls, be=be)
     d["elfm"] = (p, [segs2[0]["pfn"] + i for i in range(segs2[0]["npages"])],
                  dict(writer="write_elf", segs=segs2, machine=mach, elfclass=cls, be=be))
+    # ---- formats with per-context buffers, lazily built indexes and page maps: LKCD, SADUMP, s390
+    PS = 4096
+    pf, q = [], rng.randint(0, 3)
+    for _ in range(rng.randint(5, 8)):
+        pf.append(q)
+        q += rng.choice([1, 1, 1, 2, 3, rng.randint(4, 15), rng.randint(17, 40)])      # gaps inside and beyond MAX_PFN_GAP
+    ver = rng.choice([2, 5, 8, 9, 10])
+    comp = rng.choice([0, 1, 1])
+    kinds = {q: rng.choice(["raw", "compressed", "compressed", "auto"]) for q in pf}
+    order = list(pf)
+    if rng.random() < 0.5:
+        rng.shuffle(order)                                                            # file order != frame order
+    p = R.path("c18-%d.lkcd" % idx)
+    dumpgen.write_lkcd(p, [dict(pfn=q, data=dumpgen.page_bytes(q, PS), kind=kinds[q]) for q in order], version=ver, compression=comp)
+    d["lkcd"] = (p, pf, dict(writer="write_lkcd", order=order, kinds=kinds, version=ver, compression=comp))
+    dumped = sorted(rng.sample(range(1, 14), rng.randint(3, 6)))
+    ram = sorted(set(dumped) | set(rng.sample(range(0, 15), rng.randint(2, 6))))
+    kind = rng.choice(["single", "single", "media"])
+    ncpu = rng.randint(1, 3)
+    p = R.path("c18-%d.sadump" % idx)
+    dumpgen.write_sadump([p], {q: dumpgen.page_bytes(q, PS) for q in dumped}, ram=ram, max_mapnr=16, kind=kind, nr_cpus=ncpu)
+    d["sadump"] = (p, dumped, dict(writer="write_sadump", pages=dumped, ram=ram, max_mapnr=16, kind=kind, nr_cpus=ncpu))
+    d["sadump-ram"] = ram
+    npg = rng.randint(3, 6)
+    p = R.path("c18-%d.s390" % idx)
+    dumpgen.write_s390(p, {q: dumpgen.page_bytes(q, PS) for q in range(npg)}, npg)
+    d["s390"] = (p, list(range(npg)), dict(writer="write_s390", npages=npg))
+    p = R.path("c18-%d.junk" % idx)
+    open(p, "wb").write(bytes(rng.getrandbits(8) | 1 for _ in range(256)) + b"\0" * 70000)
+    d["junk"] = (p, [], dict(writer="junk"))
     return d
 
 
@@ -128,6 +159,40 @@ def scenarios(R, dumps, first):
     add("xlat-elf", "xlat {n} {t} %s %s" % (e[0], pl(e[1])), "elf", addrxlat=True)
     add("xlat-dd", "xlat {n} {t} %s %s" % (dd[0], pl(dd[1])), "dd", addrxlat=True)
     add("free-elf", "free {n} {t} %s 2" % e[0], "elf")
+    # generated LKCD / SADUMP / s390 dumps: open (also on an object that has clones, and on one whose earlier open
+    # failed), clone, read through a clone, attribute changes that re-allocate buffers, lazily built attributes
+    lk, sa, z, junk = dumps["lkcd"], dumps["sadump"], dumps["s390"], dumps["junk"]
+    rng = R.rng
+    ncl = rng.randint(1, 3)
+    add("open-lkcd-gen", "open {n} {t} %s -1 %s" % (lk[0], pl(lk[1])), "lkcd")
+    add("open-lkcd-clones", "open {n} {t} %s -1 %s 1 %d" % (lk[0], pl(lk[1]), ncl), "lkcd")
+    add("open-sadump-gen", "open {n} {t} %s %d %s" % (sa[0], rng.choice([-1, 0]), pl(sa[1])), "sadump")
+    add("open-s390", "open {n} {t} %s -1 %s" % (z[0], pl(z[1])), "s390")
+    nm, tgt = rng.choice([("lkcd", lk), ("sadump", sa), ("dd", dd), ("elf", e)])
+    add("reopen-junk-" + nm, "open {n} {t} %s -1 %s 1 %d !%s" % (tgt[0], pl(tgt[1]), rng.randint(0, 1), junk[0]), nm)
+    add("clone0-lkcd-gen", "clone0 {n} {t} %s %s" % (lk[0], pl(lk[1])), "lkcd")
+    add("clonex-lkcd-gen", "clonex {n} {t} %s %s" % (lk[0], pl(lk[1])), "lkcd")
+    rd = list(lk[1])
+    if rng.random() < 0.5:
+        rng.shuffle(rd)
+    add("read-lkcd", "read {n} {t} %s -1 1 0 %d %s %d" % (lk[0], rng.choice([0, 2]), pl(rd), rng.randint(0, 2)), "lkcd")
+    add("read-sadump", "read {n} {t} %s 0 1 0 0 %s 1" % (sa[0], pl(sa[1])), "sadump")
+    add("read-s390", "read {n} {t} %s 0 1 0 2 %s" % (z[0], pl(z[1])), "s390")
+    add("pgsz-lkcd", "setattr {n} {t} %s -1 %s %d arch.page_size %d 4096" % (lk[0], pl(lk[1]), ncl, rng.choice([8192, 16384, 2048])), "lkcd",
+        model="pgsz")
+    add("cachesz-lkcd", "setattr {n} {t} %s -1 %s %d cache.size %d 7" % (lk[0], pl(lk[1]), rng.randint(0, 2), rng.randint(1, 9)), "lkcd")
+    add("cachesz-dd", "setattr {n} {t} %s -1 %s %d cache.size %d 7" % (dd[0], pl(dd[1]), rng.randint(0, 2), rng.randint(1, 9)), "dd")
+    add("maxpfn-lkcd", "getattr {n} {t} %s -1 %s %d max_pfn" % (lk[0], pl(lk[1]), rng.randint(0, 1)), "lkcd")
+    add("mempagemap-dd", "getattr {n} {t} %s -1 %s %d memory.pagemap %s" % (dd[0], pl(dd[1]), rng.randint(0, 1), pl(range(12))), "dd", model="pmap")
+    add("filepagemap-dd", "getattr {n} {t} %s 0 %s 0 file.pagemap %s" % (dd[0], pl(dd[1]), pl(dd[1])), "dd")
+    add("mempagemap-sadump", "getattr {n} {t} %s 0 %s %d memory.pagemap %s" % (sa[0], pl(sa[1]), rng.randint(0, 1), pl(dumps["sadump-ram"])),
+        "sadump", model="pmap")
+    add("filepagemap-sadump", "getattr {n} {t} %s -1 %s 0 file.pagemap %s" % (sa[0], pl(sa[1]), pl(sa[1])), "sadump")
+    add("filepagemap-elf", "getattr {n} {t} %s -1 %s 0 file.pagemap %s" % (e[0], pl(e[1]), pl(e[1])), "elf")
+    add("free-lkcd", "free {n} {t} %s 0" % lk[0], "lkcd")
+    if first:
+        for c in ([1, 2, 3] if R.tier == "quick" else [1, 2, 3, 4, 6]):
+            add("slot-c%d" % c, "slot {n} {t} %d %d %d" % (c, rng.choice([24, 4096, 65536]), rng.randint(0, 2)), model="slot %d" % c)
     if R.tier != "quick":
         em = dumps["elfm"]
         add("open-elfm", "open {n} {t} %s %d %s" % (em[0], R.rng.choice([-1, 0, 1]), pl(em[1])), "elfm")
@@ -183,7 +248,8 @@ def judge(sc, n, f):
         sym.append(f["end"].split("@")[0].replace(":", "-") + "@" + f["end"].split("@")[-1])
         return sym
     okret = ret in ("ok", "obj", "void")
-    if inj and okret:
+    if inj and okret and int(f.get("shrink", 0)) < int(f["inj"]):
+        # (a refused request to make a block SMALLER may be ignored by the caller: everything else is still required)
         sym.append("success-despite-failed-allocation")
     if inj and not okret and not (ret in FAIL_OK or (sc.addrxlat and ret == "addrxlat")):
         sym.append("status-" + ret)
@@ -264,11 +330,23 @@ def run(R):
                 g, x = max(sc.N - 7, 0), 0
             for n in range(0, sc.N + 2):
                 mlines.append("new %d %d %d" % (g, x, n)); mcases.append((sc, n))
-        else:
+        elif sc.model.startswith("clone"):
             _, xl, k = sc.model.split()
             m = sc.N - 7 - int(k) if xl == "1" else 0
             for n in range(0, sc.N + 2):
                 mlines.append("clone %s %s %d %d" % (xl, k, max(m, 0), n)); mcases.append((sc, n))
+        elif sc.model.startswith("slot"):
+            for n in range(0, sc.N + 2):
+                mlines.append("slot %s %s %d" % (sc.name, sc.model.split()[1], n)); mcases.append((sc, n))
+        elif sc.model == "pgsz":
+            # contexts = clones + 1; the hook chain runs twice: N = 2 * (contexts + cache blocks)
+            c = int(re.search(r"clones=(\d+)", sc.clean.get("par", "clones=0")).group(1)) + 1
+            m = max(sc.N // 2 - c, 0)
+            for n in range(0, sc.N + 2):
+                mlines.append("pgsz %s %d %d %d" % (sc.name, c, m, n)); mcases.append((sc, n))
+        elif sc.model == "pmap":
+            for n in range(0, sc.N + 2):
+                mlines.append("pmap %s %d %d" % (sc.name, sc.N, n)); mcases.append((sc, n))
     tr0 = run_lines(R, exe, [sc.line(0, 1) for sc in S if sc.model])
     k = 0
     for sc in S:
@@ -280,10 +358,18 @@ def run(R):
     traces_ok = 0
     for i, (sc, n) in enumerate(mcases):
         f, tr = obs_by[(sc, n)]
+        leak = f["leak"]
+        if sc.model == "pmap":
+            # the window also holds the bitmap queries made after kdump_get_attr returned; the model is the first
+            # call (up to the release of the shared lock); its ledger = blocks obtained and kept by the call
+            ev = tr.split()
+            if "U0" in ev:
+                tr = " ".join(ev[:ev.index("U0") + 1])
+            leak = str(sum(1 for x in tr.split() if x[0] == "a") - sum(1 for x in tr.split() if x[0] == "f" and x != "fp"))
         impl_sum = "%s n=%d ret=%s inj=%s cnt=%s locks=%s leak=%s end=%s" % (
-            sc.name, n, f["ret"], min(int(f["inj"]), 1), f["cnt"], f["locks"], f["leak"], "done" if f["end"] == "done" else f["end"])
+            sc.name, n, f["ret"], min(int(f["inj"]), 1), f["cnt"], f["locks"], leak, "done" if f["end"] == "done" else f["end"])
         m = re.search(r"refs=(-?\d+/-?\d+/-?\d+)", f.get("par", ""))
-        if sc.model != "new":
+        if sc.model.startswith("clone"):
             impl_sum += " refs=" + (m.group(1) if m else "?")
         impl_tr = "T " + canon_trace(tr)
         msum, mtr = mout[2 * i], mout[2 * i + 1].rstrip()
